@@ -2,11 +2,12 @@
 # tools/seedimport.sh <Cnn> <wt-dir> <n> <demo-dir> <checks...> : import mutant n of an agent's worktree into seeded/<Cnn>-m<n>/ and confirm it
 set -u
 pid="$1"; wt="$2"; n="$3"; ddir="$4"; shift 4
-dst="/verif/seeded/$pid-m$n"
+dst="/verif/seeded/$pid-m$((n + ${OFFSET:-0}))"
 mkdir -p "$dst"
 cp "$wt/mutants-out/m$n.diff" "$dst/patch.diff"
 cp "$wt/mutants-out/m${n}_demo_test.go" "$dst/demo_test.go"
 cp "$wt/mutants-out/m$n.txt" "$dst/notes.txt"
 tname=$(grep -o 'func Test[A-Za-z0-9_]*' "$dst/demo_test.go" | head -1 | sed 's/func //')
 echo "== $pid m$n test=$tname"
-/verif/tools/seedtest.sh "$dst/patch.diff" "$dst/demo_test.go" "$ddir" "$tname" "$@" 2>&1 | tee "$dst/confirm.log"
+/verif/tools/seedtest.sh "$dst/patch.diff" "$dst/demo_test.go" "$ddir" "$tname" "$@" 2>&1 | grep -v "WARNING conda" | tee "$dst/confirm.log"
+python3 /verif/tools/mkmeta.py "$dst" | grep -v "WARNING conda"
